@@ -87,7 +87,9 @@ func init() {
 			ctx context.Context,
 			err error,
 		) (msg string, safeDetails []string, payload proto.Message) {
-			return "", nil, nil
+			// The message is what a receiver that does not know this
+			// type shows as the error's text.
+			return err.Error(), nil, nil
 		},
 	)
 	errbase.RegisterMultiCauseDecoder(
